@@ -147,7 +147,12 @@ def standard_check(prop, build, ok_real, describe, level_text, assumptions, jobs
         harnesses=len(harnesses), harnesses_proved=solved, reachability_witnesses=witnesses,
         catalogue_entries=sorted(set(h['entry'] for h in harnesses)),
         skipped_operations=[dict(entry=e, op=op, kind=k, reason=w) for e, op, k, w in K.crate.skipped],
-        kani=[r.to_json() for r in K.results.values()], solver_s=round(solver_s, 1), kani_wall_s=round(kani_s, 1), native_build_s=round(K.build_s, 1),
+        kani=[dict(r.to_json(), entry=by_name[n_]['entry'], encodes=by_name[n_]['what'], unwind=getattr(r, 'retried_unwind', None) or by_name[n_].get('unwind'))
+              for n_, r in K.results.items()],
+        bounds=dict(unwind='per harness (see kani[].unwind); an unwinding assertion failure is retried once with 2n+4 and otherwise reported inconclusive',
+                    solver_time_limit_s=timeout, memory_limit_gb_per_solver=12),
+        functions_encoded='the Deserialize / Serialize impls that #[derive(GraphQLQuery)] of the working tree expands to for each catalogue operation (kani[].encodes), compiled by Kani together with serde',
+        solver_s=round(solver_s, 1), kani_wall_s=round(kani_s, 1), native_build_s=round(K.build_s, 1),
         native_differential=dict(runs_per_harness=fuzz_count, harnesses=len(native_names)),
         engine_m=engine_m,
         exhaustive=False)
